@@ -3,6 +3,7 @@ package checks
 import (
 	"fmt"
 	"os"
+	"sort"
 	"strconv"
 	"strings"
 
@@ -158,6 +159,60 @@ var c11Multi = []rune{0xa9, 0xe9, 0xfc, 0xdf, 0x3a9, 0x3b1, 0x416, 0x44f, 0x5d0,
 	0x2028, 0x2029, 0x1e9e, 0x2260, 0x221e, 0x25a0, 0x2764, 0x3000, 0x0e01, 0x0915, 0x10d0, 0x1200, 0x13a0, 0x1780, 0x1100, 0x0b85,
 	0x10000, 0x1f600, 0x1f389, 0x1f1ef, 0x10ffff, 0x20000, 0x2f800, 0x1d11e, 0x1f4a9, 0x10348, 0x1f3fb, 0xe0041, 0x1f680, 0x1fae0, 0x16000, 0x1b000}
 
+// c11MultiWide: valid multi-byte scalar values around and between the listed ones, without the
+// listed ones themselves, in ascending order (deterministic).
+func c11MultiWide(tier string) []rune {
+	seen := map[rune]bool{}
+	for _, r := range c11Multi {
+		seen[r] = true
+	}
+	var out []rune
+	put := func(r rune) {
+		if r < 0x80 || r > 0x10ffff || (r >= 0xd800 && r <= 0xdfff) || seen[r] {
+			return
+		}
+		seen[r] = true
+		out = append(out, r)
+	}
+	for _, r := range c11Multi {
+		put(r - 1)
+		put(r + 1)
+		put(r &^ 0x3f)
+		put(r | 0x3f)
+		put(r ^ 0x3f)
+		put(r ^ 0x40)   // same last byte, next-to-last byte differs
+		put(r ^ 0x1000) // same two last bytes, the byte before differs
+	}
+	for r := rune(0x80); r < 0x800; r += 0x40 { // one per 2-byte lead byte
+		put(r)
+		put(r | 0x3f)
+	}
+	for r := rune(0x800); r < 0x10000; r += 0x1000 { // one per 3-byte lead byte
+		put(r)
+		put(r | 0xfff)
+		put(r | 0x03f)
+		put(r | 0xfc0)
+	}
+	for r := rune(0x10000); r <= 0x10ffff; r += 0x40000 { // one per 4-byte lead byte
+		put(r)
+		put(r | 0x3ffff)
+		put(r | 0x0003f)
+	}
+	for r := rune(0xfec0); r <= 0xfeff; r++ { // all of EF BB xx
+		put(r)
+	}
+	if tier == "thorough" {
+		for r := rune(0x80); r < 0x10000; r += 13 {
+			put(r)
+		}
+		for r := rune(0x10000); r <= 0x10ffff; r += 997 {
+			put(r)
+		}
+	}
+	sort.Slice(out, func(i, j int) bool { return out[i] < out[j] })
+	return out
+}
+
 func c11Generate(tier string, rng *core.Rand) []*c11Lit {
 	var out []*c11Lit
 	add := func(class string, form int, src, want string) {
@@ -201,6 +256,17 @@ func c11Generate(tier string, rng *core.Rand) []*c11Lit {
 			}
 		}
 		addPieces("empty", form, []c11Piece{{"", -1}})
+	}
+	// 1b. the byte neighbourhood of the multi-byte characters: every character above shares its
+	// leading bytes with others (EF BB BF is U+FEFF, EF BB 80 is U+FEC0), so a scanner that decides
+	// on a prefix of the encoding is only exposed by a sibling. Siblings of every listed character
+	// (last byte 80, BF, +-1, mirrored), one character per lead byte C2..F4 with the smallest and the
+	// largest continuation bytes; thorough walks the planes with a fixed stride as well.
+	for form := 0; form < 4; form++ {
+		for _, r := range c11MultiWide(tier) {
+			addPieces("multibyte-neighbourhood", form, []c11Piece{{string(r), -1}})
+			addPieces("multibyte-neighbourhood-between-letters", form, []c11Piece{{"a" + string(r) + "b", -1}})
+		}
 	}
 	// 2. the escapes and brace escapes in combination
 	for _, v := range []string{"\\\"", "\"\"", "\\\\", "\\n", "a\\tb", "{}", "{a}", "}{", "{{x}}", "%d", "%s%v%%", "100%", "%!", "%", "% d", "\\{", "x\\", "\\", "\"", "tab\there", "nl\nhere", "%{", "}%"} {
